@@ -25,14 +25,17 @@ pub struct Case {
     pub ops: Vec<POp>,
     /// in-memory .shp / .shx destinations already hold longer stale content (a reused buffer)
     pub prefill: bool,
+    /// 0: as is; 1: palette shape a has no-data measures only (types with measures); 2 (disk): the file name has
+    /// several dots ("c08-<n>.v1.2024.shp")
+    pub variant: u8,
 }
 
 impl Case {
     pub fn to_json(&self) -> Value {
-        json!({"ty": self.ty.name(), "disk": self.disk, "ops": pops_name(&self.ops), "prefill": self.prefill})
+        json!({"ty": self.ty.name(), "disk": self.disk, "ops": pops_name(&self.ops), "prefill": self.prefill, "variant": self.variant})
     }
     pub fn from_json(v: &Value) -> Option<Case> {
-        Some(Case { ty: Ty::from_name(v.get("ty")?.as_str()?)?, disk: v.get("disk")?.as_bool()?, ops: pops_from_name(v.get("ops")?.as_str()?)?, prefill: v.get("prefill").and_then(|x| x.as_bool()).unwrap_or(false) })
+        Some(Case { ty: Ty::from_name(v.get("ty")?.as_str()?)?, disk: v.get("disk")?.as_bool()?, ops: pops_from_name(v.get("ops")?.as_str()?)?, prefill: v.get("prefill").and_then(|x| x.as_bool()).unwrap_or(false), variant: v.get("variant").and_then(|x| x.as_u64()).unwrap_or(0) as u8 })
     }
 }
 
@@ -52,9 +55,19 @@ pub struct Obs {
     /// what the complete reader returns: per item Ok((shape as read, row idx, row name)) or Err
     pub iter: Result<Vec<Result<(MRead, Option<i64>, Option<String>), String>>, String>,
     pub read: Result<Vec<(MRead, Option<i64>, Option<String>)>, String>,
+    /// by path: companion files that are missing under their proper names / created under other names
+    pub missing: Vec<String>,
 }
 
 pub fn observe(pal: &Palette, case: &Case) -> Obs {
+    let nodata_pal;
+    let pal = if case.variant == 1 {
+        nodata_pal = nodata_palette(case.ty);
+        &nodata_pal
+    } else {
+        pal
+    };
+    let mut missing: Vec<String> = vec![];
     let (results, shp, shx, dbf);
     let mut iter;
     let read;
@@ -63,7 +76,13 @@ pub fn observe(pal: &Palette, case: &Case) -> Obs {
     if case.disk {
         let dir = super::c01_c02::scratch_dir();
         let tid: String = format!("{:?}", std::thread::current().id()).chars().filter(|c| c.is_ascii_digit()).collect();
-        let path = dir.join(format!("c08-{}.shp", tid));
+        let path = dir.join(if case.variant == 2 { format!("c08-{}.v1.2024.shp", tid) } else { format!("c08-{}.shp", tid) });
+        if case.variant == 2 {
+            // a neighbouring data set that shares the prefix of the name
+            for ext in ["shx", "dbf"] {
+                let _ = std::fs::remove_file(dir.join(format!("c08-{}.v1.{}", tid, ext)));
+            }
+        }
         for ext in ["shp", "shx", "dbf"] {
             std::fs::write(path.with_extension(ext), vec![0xEEu8; 70_000]).expect("prefill");
         }
@@ -86,9 +105,24 @@ pub fn observe(pal: &Palette, case: &Case) -> Obs {
             }
             results = rs;
         }
-        shp = std::fs::read(&path).unwrap();
-        shx = std::fs::read(path.with_extension("shx")).unwrap();
-        dbf = std::fs::read(path.with_extension("dbf")).unwrap();
+        shp = std::fs::read(&path).unwrap_or_default();
+        // the companion files are the ones whose names differ from the .shp's in the extension only
+        shx = std::fs::read(path.with_extension("shx")).unwrap_or_default();
+        dbf = std::fs::read(path.with_extension("dbf")).unwrap_or_default();
+        for ext in ["shp", "shx", "dbf"] {
+            if !path.with_extension(ext).exists() {
+                missing.push(format!("{} does not exist", path.with_extension(ext).file_name().unwrap().to_string_lossy()));
+            }
+        }
+        if case.variant == 2 {
+            for ext in ["shx", "dbf"] {
+                let stray = dir.join(format!("c08-{}.v1.{}", tid, ext));
+                if stray.exists() {
+                    missing.push(format!("{} was created instead", stray.file_name().unwrap().to_string_lossy()));
+                    let _ = std::fs::remove_file(stray);
+                }
+            }
+        }
         read = shapefile::read(&path).map(|v| v.into_iter().map(conv).collect()).map_err(|e| err_kind(&e));
         iter = Reader::from_path(&path).map_err(|e| err_kind(&e)).map(|mut r| {
             let mut v = vec![];
@@ -133,12 +167,39 @@ pub fn observe(pal: &Palette, case: &Case) -> Obs {
     if let Ok(v) = &mut iter {
         v.truncate(cap + 1);
     }
-    Obs { results, shp, shx, dbf, iter, read }
+    Obs { results, shp, shx, dbf, iter, read, missing }
+}
+
+/// the palette with every measure of shape a replaced by the no-data value
+pub fn nodata_palette(ty: Ty) -> Palette {
+    let mut pal = Palette::new(ty, Some(other_of(ty)));
+    if ty.carries_m() {
+        let mut m = pal.model[0].clone();
+        for p in m.parts.iter_mut() {
+            for q in p.pts.iter_mut() {
+                q[3] = NO_DATA;
+            }
+        }
+        pal.lib[0] = to_lib(&m);
+        pal.built[0] = from_lib(&pal.lib[0]);
+        pal.model[0] = m;
+    }
+    pal
 }
 
 pub fn judge(pal: &Palette, case: &Case, o: &Obs) -> Vec<(String, String)> {
     let mut out = vec![];
+    let nodata_pal;
+    let pal = if case.variant == 1 {
+        nodata_pal = nodata_palette(case.ty);
+        &nodata_pal
+    } else {
+        pal
+    };
     let route = if case.disk { "disk" } else { "mem" };
+    if !o.missing.is_empty() {
+        out.push((format!("{}:companion-files", route), format!("written by path with the file name of the .shp given: {}", o.missing.join("; "))));
+    }
     // per-call results
     let mismatch = format!("MismatchShapeType(requested={},actual={})", case.ty.code(), other_of(case.ty).code());
     for (i, (op, r)) in case.ops.iter().zip(&o.results).enumerate() {
@@ -275,7 +336,7 @@ fn enabled(h: &Hist) -> Vec<u8> {
 }
 
 fn selftest(pals: &[Palette], types: &[Ty]) -> (u64, u64) {
-    let case = Case { ty: types[1], disk: false, ops: vec![POp::Good(0), POp::BadType, POp::Good(1), POp::Good(0)], prefill: false };
+    let case = Case { ty: types[1], disk: false, ops: vec![POp::Good(0), POp::BadType, POp::Good(1), POp::Good(0)], prefill: false, variant: 0 };
     let pal = &pals[1];
     if !judge(pal, &case, &observe(pal, &case)).is_empty() {
         return (1, 0);
@@ -322,13 +383,15 @@ pub fn check(tier: Tier) -> i32 {
         return 2;
     }
     let depth = tier.pick(5, 6);
-    let types: Vec<Ty> = tier.pick(vec![Ty::Point, Ty::PointM, Ty::PolylineZ, Ty::PolygonM, Ty::MultipointZ, Ty::Multipatch], ALL13.to_vec());
+    let types: Vec<Ty> = tier.pick(vec![Ty::Point, Ty::PointM, Ty::PolylineZ, Ty::PolygonM, Ty::MultipointZ, Ty::Multipatch, Ty::PolylineM, Ty::MultipointM], ALL13.to_vec());
     let pals: Arc<Vec<Palette>> = Arc::new(types.iter().map(|t| Palette::new(*t, Some(other_of(*t)))).collect());
     let mut inits = vec![];
     for t in 0..types.len() as u8 {
         inits.push(vec![t, 0]);
         inits.push(vec![t, 1]);
         inits.push(vec![t, 2]);
+        inits.push(vec![t, 3]);
+        inits.push(vec![t, 4]);
     }
     let (p2, ty2) = (pals.clone(), types.clone());
     let disk_depth = 3;
@@ -338,7 +401,7 @@ pub fn check(tier: Tier) -> i32 {
         depth,
         Arc::new(move |h| if h[1] >= 1 && h.len() - CFG >= disk_depth { vec![] } else { enabled(h) }),
         Arc::new(move |h, ctx| {
-            let case = Case { ty: ty2[h[0] as usize], disk: h[1] == 1, ops: h[CFG..].iter().map(|b| POPS[*b as usize]).collect(), prefill: h[1] == 2 };
+            let case = Case { ty: ty2[h[0] as usize], disk: h[1] == 1 || h[1] == 4, ops: h[CFG..].iter().map(|b| POPS[*b as usize]).collect(), prefill: h[1] == 2, variant: match h[1] { 3 => 1, 4 => 2, _ => 0 } };
             let pal = &p2[h[0] as usize];
             let mut hh = Fnv::new();
             hh.bytes(h);
@@ -368,7 +431,7 @@ pub fn check(tier: Tier) -> i32 {
     let mut ladder_ctx = Ctx::new();
     for (ti, ty) in types.iter().enumerate().take(3) {
         for n in crate::structs::COUNT_LADDER {
-            let case = Case { ty: *ty, disk: n == 1025, ops: (0..n).map(|i| POp::Good(((i * 5 + i / 3) % 2) as u8)).collect(), prefill: n == 257 };
+            let case = Case { ty: *ty, disk: n == 1025, ops: (0..n).map(|i| POp::Good(((i * 5 + i / 3) % 2) as u8)).collect(), prefill: n == 257, variant: 0 };
             let mut hh = Fnv::new();
             hh.str(&format!("ladder{}{}", ty.name(), n));
             match catch(|| observe(&pals[ti], &case)) {
@@ -398,7 +461,7 @@ pub fn check(tier: Tier) -> i32 {
             tier,
             level: "model_checking",
             engine: "E1 stateright BFS over write-call histories on the real complete Writer (three instrumented devices / from_path), read back with the real complete Reader",
-            rule: "every history up to the depth bound over {OkA, OkB, BadType, RowMissingField, RowWrongType, RowWrongFirstField} (first call accepted), rows carry the position of their call; in memory to the full depth, through Writer::from_path + shapefile::read / Reader::from_path (over paths that already hold longer files) and into in-memory buffers that already hold longer stale content, both to depth 3; plus all-success histories of 255..2049 pairs (record-count ladder around powers of two, 1025 also by path); non-trivial = >= 2 calls",
+            rule: "every history up to the depth bound over {OkA, OkB, BadType, RowMissingField, RowWrongType, RowWrongFirstField} (first call accepted), rows carry the position of their call; in memory to the full depth, through Writer::from_path + shapefile::read / Reader::from_path (over paths that already hold longer files; also with a file name that has several dots, the companion files being looked up under their proper names) and into in-memory buffers that already hold longer stale content, and with a shape whose measures are all no-data, each to depth 3; plus all-success histories of 255..2049 pairs (record-count ladder around powers of two, 1025 also by path); non-trivial = >= 2 calls",
             bounds: json!({"depth": depth, "disk_depth": disk_depth, "types": types.iter().map(|t| t.name()).collect::<Vec<_>>(), "alphabet": POPS.iter().map(|p| p.name()).collect::<Vec<_>>()}),
             exhaustive: true,
             assumptions: vec!["dbf tables without deleted rows; entry counts are read by the harness from the raw bytes (RefCodec scan, .shx parse, .dbf header bytes 4..8)".into()],
